@@ -747,6 +747,11 @@ class Ceremony:
             if len(t.outputs) < 2:
                 return False
             t.outputs[0], t.outputs[1] = t.outputs[1], t.outputs[0]
+            # keep the object coherent: an output's own number is its position (a wallet that later stores the
+            # transaction books the outputs under these numbers)
+            for n_, o in enumerate(t.outputs):
+                if hasattr(o, 'output_n'):
+                    o.output_n = n_
             return True
         if kind == 'add_output':
             t.add_output(1000, self.ext_addr)
@@ -927,6 +932,9 @@ class Ceremony:
         c2 = Copy(t2, c.holder, set(c.signers), tampered=True, via=c.via + ('parsed',))
         c2.parsed = True
         c2.context_tampered, c2.resigned = c.context_tampered, c.resigned
+        if kind in ('outpoint_zero_txid', 'outpoint_index'):
+            # as for the same edit of the object: the copy no longer names the previous output it was made for
+            c2.context_tampered = True
         c2.wire_raw = None if kind in ('sig_hashtype', 'sig_der_byte', 'pubkey_byte') else bytes.fromhex(raw2)
         self.copies.append(c2)
         w.outcome('parsed', cid=c2.cid)
